@@ -74,6 +74,8 @@ type c14Case struct {
 	Links  int    `json:"links"`  // 0, 1, 3
 	Expect string `json:"expect"` // linkmap | bytes | map | error | no-panic
 	Via    string `json:"via"`    // built | decoded
+	// Nameless: the last link has no Name field
+	Nameless bool `json:"nameless,omitempty"`
 }
 
 func (c c14Case) String() string {
@@ -105,6 +107,12 @@ func (c c14Case) run(viol func(sig, detail string), r *core.Run) {
 	var leafSizes []uint64
 	for i := 0; i < c.Links; i++ {
 		e := gen.Leaf(s, names[i])
+		if c.Nameless && i == c.Links-1 {
+			// the last link carries no Name field at all (optional in dag-pb)
+			pn.Links = append(pn.Links, model.PBLink{Cid: e.Cid, Tsize: e.Tsize, HasTsize: true})
+			leafSizes = append(leafSizes, e.Tsize)
+			continue
+		}
 		pn.Links = append(pn.Links, model.PBLink{Cid: e.Cid, Name: names[i], HasName: true, Tsize: e.Tsize, HasTsize: true})
 		leafSizes = append(leafSizes, e.Tsize)
 	}
@@ -163,6 +171,9 @@ func (c c14Case) run(viol func(sig, detail string), r *core.Run) {
 				viol("dispatch-kind "+tag, fmt.Sprintf("%s: kind %v want map", c, n.Kind()))
 			}
 			for _, l := range pn.Links {
+				if !l.HasName {
+					continue
+				}
 				v, err := n.LookupByString(l.Name)
 				if err != nil {
 					viol("linkmap-lookup "+tag, fmt.Sprintf("%s: lookup(%q): %v", c, l.Name, err))
@@ -327,6 +338,14 @@ func c14Cases(quick bool) []c14Case {
 		add(fmt.Sprintf("shard-fanout-%d-bitfield-1byte", f), shard(func(d *pb.Data) { d.Fanout = u64p(f); d.Data = []byte{1} }), false, "error", []int{0})
 	}
 	add("shard-no-bitfield-with-links", shard(func(d *pb.Data) { d.Data = nil }), false, "no-panic", []int{1})
+	// every node class whose last link has no Name field at all
+	for _, c := range append([]c14Case{}, out...) {
+		if c.Links > 0 && !strings.HasPrefix(c.Label, "shard") {
+			c2 := c
+			c2.Nameless, c2.Label = true, c.Label+" [nameless last link]"
+			out = append(out, c2)
+		}
+	}
 	// the same payloads with the fields in another wire order (protobuf field
 	// order is not significant; the decoder accepts any): DataType last, and a
 	// non-minimal (two-byte) DataType tag first
